@@ -120,14 +120,15 @@ func labelsOf(st *Step) []string {
 
 // GenOpts steer GenChain.
 type GenOpts struct {
-	Net        NetOpts
-	MinBlocks  int
-	MaxBlocks  int
-	Profile    Profile
-	Reorgs     bool
-	MaxReorg   int
-	OnBlock    func(g *Gen, b *Builder) // extra actions before Fill (property-specific scenarios)
-	AfterBlock func(g *Gen)             // called after each applied block (e.g. to record probes)
+	Net         NetOpts
+	MinBlocks   int
+	MaxBlocks   int
+	Profile     Profile
+	Reorgs      bool
+	MaxReorg    int
+	OnBlock     func(g *Gen, b *Builder)                                         // extra actions before Fill (property-specific scenarios)
+	BeforeApply func(g *Gen, honest types.Block, bs consensus.V1BlockSupplement) // sealed honest block, not yet applied (record probes here)
+	AfterBlock  func(g *Gen)                                                     // called after each applied block (e.g. to record probes)
 }
 
 // Gen is a chain under generation together with its recording.
@@ -171,6 +172,9 @@ func (g *Gen) Block() bool {
 	blk, bs, exp, err := b.Finish(mode, jitter)
 	if err != nil {
 		panic(fmt.Sprintf("simulator cannot seal block: %v", err))
+	}
+	if g.Opts.BeforeApply != nil {
+		g.Opts.BeforeApply(g, blk, bs)
 	}
 	return g.ApplyRecorded(blk, bs, exp)
 }
